@@ -36,6 +36,7 @@ L3 = np.array([6.0, 7.0, 8.0])  # 3D box, centred on the origin (boxbounds.sum()
 L2 = np.array([7.0, 6.0])  # 2D box with origin (1, 2)
 LO2 = np.array([1.0, 2.0])
 TYPES3 = [1, 2, 1, 1, 2, 2, 1, 2, 1]
+KSPECIES = (1, 3, 4, 5, 6)
 TYPES2 = [1, 2, 1, 2, 2, 1, 1, 2]
 
 
@@ -148,6 +149,10 @@ class World:
             "s2": mk_snaps(fr2, np.diag(L2), TYPES2, lo=LO2, steps=STEPS),
             "so2": mk_snaps([np.column_stack((np.cos(x), np.sin(x))) for x in ang], np.eye(2), TYPES2, steps=STEPS),
         }
+        # the hand-unrolled unary .. quinary (and > 5 species) bodies of gr / sq each write their own output file
+        for K in KSPECIES:
+            self.snaps[f"s3k{K}"] = mk_snaps([np.array(x).copy() for x in fr3], np.diag(L3), [1 + (i % K) for i in range(N3)],
+                                             lo=-L3 / 2, steps=STEPS)
         # ---- input files
         nl3, w3 = _knn(fr3, L3, lambda i: 3 + i % 3)
         nl2, w2 = _knn(fr2, L2, lambda i: 3 + i % 2)
@@ -623,6 +628,26 @@ def _(W):
     return r, [F("o_sq2.csv", "csv", r, 6)]
 
 
+def _mk_k_events(K):
+    @event(f"gr3.k{K}")
+    def _g(W):
+        from PyMatterSim.static.gr import gr
+
+        r = gr(W.snaps[f"s3k{K}"], ppp=W.args["ppp3"], rdelta=0.25, outputfile=f"o_gr3k{K}.csv").getresults()
+        return r, [F(f"o_gr3k{K}.csv", "csv", r, 6)]
+
+    @event(f"sq3.k{K}")
+    def _s(W):
+        from PyMatterSim.static.sq import sq
+
+        r = sq(W.snaps[f"s3k{K}"], qvector=W.args["qvec3"], outputfile=f"o_sq3k{K}.csv").getresults()
+        return r, [F(f"o_sq3k{K}.csv", "csv", r, 6)]
+
+
+for _K in KSPECIES:
+    _mk_k_events(_K)
+
+
 def _csq(W, cond, q="qvec3"):
     from PyMatterSim.static.sq import conditional_sq
 
@@ -1014,6 +1039,13 @@ def _(W):
     return r, [F("o_sq4.csv", "csv", r, None)]
 
 
+@event("dyn.sq4.bool")
+def _(W):
+    # a caller may pass the selection as a boolean array (as relaxation() is given above) or as 0/1 floats
+    r = W.dyn.sq4(t=0.2, qrange=2.5, condition=W.args["sel_FN"], outputfile="o_sq4b.csv")
+    return r, [F("o_sq4b.csv", "csv", r, None)]
+
+
 @event("dyn.cage_fast")
 def _(W):
     from PyMatterSim.dynamic.dynamics import Dynamics
@@ -1161,7 +1193,7 @@ EVENT_NAMES = list(EVENTS)
 
 # events that touch the aliasing / shared-object paths; used for the depth-3 core and the quick-tier pair matrix
 CORE = ["voro3", "volmat3", "gyration.snap", "boo3.w", "boo3.sij", "boo2.init", "boo2.tavg", "dyn.relax", "dyn.sq4", "gr3",
-        "cgr.complex", "nn.nearest"]
+        "cgr.complex", "nn.nearest", "dyn.sq4.bool"]
 
 
 # ================================================================================== fork isolation
